@@ -62,3 +62,55 @@ Local Close Scope string_scope.
 Definition hand_vmstack_frame (boc : bytes) : res bytes :=
   if N.of_nat (length boc) <? two24 then Ok (go_bytes boc) else Err EOther.
 Definition hand_vmstack_unframe (bs : bytes) : res bytes * st := read_byte_slice (st0 bs).
+
+(** * liteclient/client.go: the package-private copies of the TL length prefix
+    and alignment, and the hand-assembled frames around every query
+      Client.Request           adnl.message.query#b48bf97a query_id:int256 query:bytes
+      processQueryAnswer       adnl.message.answer#0fac8416 query_id:int256 answer:bytes
+      liteServerRequest        liteServer.query#798c06df data:bytes
+      WaitMasterchainSeqno     liteServer.waitMasterchainSeqno#baeab892 seqno:int timeout_ms:int (prefix) *)
+(* encodeLength: uint32(i<<8) little-endian with b[0] = 254 *)
+Definition lc_encode_length (i : N) : bytes :=
+  if 254 <=? i then 254 :: le_bytes 3 i else [i].
+(* alignBytes *)
+Definition lc_align (b : bytes) : bytes :=
+  let left := N.of_nat (length b) mod 4 in
+  if left =? 0 then b else b ++ repeat 0 (N.to_nat (4 - left)).
+(* decodeLength (the input is a byte string: the panic branch is unreachable) *)
+Definition lc_decode_length (b : bytes) : res (N * bytes) :=
+  match b with
+  | [] => Err EOther
+  | b0 :: t =>
+      if b0 =? 255 then Err EOther
+      else if b0 <? 254 then Ok (b0, t)
+      else if short 4 b then Err EOther
+      else Ok (le_num (firstn 3 t), skipn 3 t)      (* int(LE32(0,b1,b2,b3)) >> 8 *)
+  end.
+
+Definition magic_adnl_query : N := 0xb48bf97a.
+Definition magic_adnl_answer : N := 0x0fac8416.
+Definition magic_ls_query : N := 0x798c06df.
+Definition magic_ls_wait : N := 0xbaeab892.
+
+(* the ADNL payload Client.Request hands to the connection *)
+Definition lc_request_payload (id q : bytes) : bytes :=
+  lc_align (le_bytes 4 magic_adnl_query ++ id ++ lc_encode_length (N.of_nat (length q)) ++ q).
+(* what liteServerRequest hands to Request (it uses tl.EncodeLength) *)
+Definition lc_ls_query (q : bytes) : bytes :=
+  lc_align (le_bytes 4 magic_ls_query ++ go_encode_length (N.of_nat (length q)) ++ q).
+(* processQueryAnswer: what is delivered to the waiting request *)
+Definition lc_process_answer (payload : bytes) : res bytes :=
+  if short 37 payload then Err EOther else
+  do nd <- lc_decode_length (skipn 36 payload);
+  let '(n, data) := nd in
+  if shortN n data then Err EOther else Ok (firstn (N.to_nat n) data).
+(* WaitMasterchainSeqno / WaitMasterchainBlock: the query prefix *)
+Definition lc_wait_prefix (seqno timeout : N) : bytes :=
+  le_bytes 4 magic_ls_wait ++ le_bytes 4 seqno ++ le_bytes 4 timeout.
+
+Local Open Scope string_scope.
+Definition fields_adnl_query : list field :=
+  [mkfield "query_id" None TInt256; mkfield "query" None TBytes].
+Definition val_adnl_query (id q : bytes) : value :=
+  VRec "AdnlMessageQuery" [("QueryId", VBytes id); ("Query", VBytes q)].
+Local Close Scope string_scope.
